@@ -117,6 +117,13 @@ var c19Faults = []struct {
 	{"error inside a quoted param value", "{call .other}{param key=\"p\" value=\"1 +\" /}{/call}", true, "{call .other}{param key=\"p\" value=\"1 +\"", 0},
 	{"unterminated string", "{'never closed}", false, "{'never closed}", 0},
 	{"unterminated block comment", "/* never closed", false, "/* never closed", 0},
+	{"double-brace css tag closed by a single brace", "{{css a}", true, "{{css a}", 0},
+	{"double-brace literal tag closed by a single brace", "{{literal}", true, "{{literal}", 0},
+	{"literal tag that is not closed on its line", "{literal", true, "{literal", 0},
+	{"text between the cases of a switch, lines before the next case", "{switch 1}#\n\n\n{case 1}a{/switch}", true, "{switch 1}#\n\n\n{", 0},
+	{"a string of several lines where none may stand", "{$a 'x\ny\nz'}", true, "{$a 'x\ny\nz'", 0},
+	{"plural without a default, lines before its end", "{msg desc=\"d\"}\n{plural 1}\n{case 1}a\n\n\n{/plural}{/msg}", true, "{msg desc=\"d\"}\n{plural 1}\n{case 1}a\n\n\n{/plural}", 1},
+	{"plural case that is not a number", "{msg desc=\"d\"}\n{plural 1}\n{case 'a'}a\n\n{default}b{/plural}{/msg}", true, "{msg desc=\"d\"}\n{plural 1}\n{case 'a'}", 2},
 	{"unterminated tag", "{if $a", false, "{if $a", 0},
 }
 
@@ -241,6 +248,16 @@ func checkC19(c C19Case) Verdict {
 		f := c19Faults[c.Fault%len(c19Faults)]
 		n := 0
 		for at := 0; at <= len(c.Lines); at++ { // the fault is inserted before body line 'at'
+			if strings.Contains(f.line, "{msg") {
+				// (a message may not stand inside a message)
+				open := 0
+				for _, l := range c.Lines[:at] {
+					open += strings.Count(l, "{msg") - strings.Count(l, "{/msg}")
+				}
+				if open > 0 {
+					continue
+				}
+			}
 			body := append(append(append([]string{}, c.Lines[:at]...), f.line), c.Lines[at:]...)
 			src, start := c.file(body)
 			if err := checkParseError(c.Name, src, start+at+f.at, f.single, f.name); err != nil {
@@ -251,7 +268,9 @@ func checkC19(c C19Case) Verdict {
 			// part of it that makes the fault certain (the fault line is then the last line of the input)
 			for _, last := range []string{f.line, f.crit} {
 				cut, _ := c.fileUpTo(append(append([]string{}, c.Lines[:at]...), last), false)
-				if err := checkParseError(c.Name, cut, start+at+f.at, f.single, f.name+" (input ends after "+fmt.Sprintf("%q", last)+")"); err != nil {
+				// (a string or comment that nothing closes before the input ends is reported where it begins)
+				exact := f.single || strings.HasPrefix(f.name, "unterminated string") || strings.HasPrefix(f.name, "unterminated block comment")
+				if err := checkParseError(c.Name, cut, start+at+f.at, exact, f.name+" (input ends after "+fmt.Sprintf("%q", last)+")"); err != nil {
 					return bad(true, "%v", err)
 				}
 				n++
@@ -330,6 +349,28 @@ func checkC19(c C19Case) Verdict {
 		}
 		if depth == 0 && laterIteration != "" && (c.Fault/4)%2 == 1 { // (that bit means something else at depth > 0)
 			failing = []string{"{" + laterIteration + " ? $a.nokey.deeper : 'fine'}"}
+		}
+		if depth == 0 && laterIteration == "" && at%3 == 2 {
+			// a command written over several lines: the failing part of its expression stands lines below
+			// the command
+			switch (c.Fault / 4) % 4 {
+			case 0:
+				failing = []string{"{$a +", "", "  $a.nokey.deeper}"}
+			case 1:
+				failing = []string{"{if $a", "  and $a.nokey.deeper}x{/if}"}
+			case 2:
+				failing = []string{"{let $zzw:", "", " [1,", "  $a.nokey.deeper] /}{$zzw}"}
+			}
+			if inMsgNow := func() bool {
+				for _, l := range loops {
+					if l == "msg" {
+						return true
+					}
+				}
+				return false
+			}(); inMsgNow && (c.Fault/4)%4 != 0 {
+				failing = []string{"{$a +", "", "  $a.nokey.deeper}"}
+			}
 		}
 		if depth > 0 && laterIteration != "" && (c.Fault/4)%2 == 0 {
 			failing = []string{"{if " + laterIteration + "}{call ns.d1.t /}{/if}"}
